@@ -1,4 +1,4 @@
-"""C15 round 4 — cached graph views (model: coq/model/C15_View.v, `run3`).
+"""C15 round 4 — cached graph views (model: coq/model/C15_View.v `step3`, observed through coq/model/C15_ViewObs.v `run3g`).
 
 case = {"kind": "h3-…", "n": <#networks>, "k": <#caller side objects>, "nb": <#backend slots>, "skip": m, "ops": [op, ...]}
 ops: every op of harness/gen/c15_ext.py (the store language), plus
@@ -7,8 +7,8 @@ ops: every op of harness/gen/c15_ext.py (the store language), plus
   ["view", b]                                                     G = backends[b].G
   ["vtype", b]                                                    backends[b].graph_type
 A copy INTO slot j re-binds the slot to a new object: the caller's backends for slot j are re-created on it.
-Observable of a view access: graph type, whether a NEW graph object was handed out (cache miss) and whether the graph
-handed out equals a fresh export of the network as it is now.  The graph handed out is then scribbled on by the caller? No:
+Observable of a view access: graph type, whether a NEW graph object was handed out (cache miss), whether the graph
+handed out equals a fresh export of the network as it is now, and (round 5) the graph handed out itself — all nodes, arcs, attributes.  The graph handed out is then scribbled on by the caller? No:
 the cached object IS the view (documented), so it is left alone.
 """
 from ..coqrun import cstr, cnat, cbool, clist
@@ -82,7 +82,10 @@ class _State:
             G = obj.G
             rebuilt = G is not self.last[op[1]]
             self.last[op[1]] = G
-            return None, [obj.graph_type, rebuilt, _same_graph(G, _fresh(self.nets[i], spec))]
+            # the graph object handed out, in full (every node, arc, attribute): compared with the model's export of the snapshot
+            from ..props import C16 as P16
+            gobs = P16._bip_obs(G) if spec[0] else P16._sg_obs(G)
+            return None, [[obj.graph_type, rebuilt, _same_graph(G, _fresh(self.nets[i], spec))], gobs]
         er, ans = X.apply2(self.nets, self.pool, op)
         if k == "copy" and er is None:
             j = op[2]
@@ -122,7 +125,7 @@ def op_term3(op):
 def coq_case3(case):
     if not X.in_model_domain(dict(case, ops=[o for o in case["ops"] if o[0] not in ("bnew", "view", "vtype")])):
         return None
-    return "run3 %s %s %s %s %s" % (cnat(case["n"]), cnat(case.get("k", 0)), cnat(case.get("nb", 0)), cnat(case.get("skip", 0)),
+    return "run3g %s %s %s %s %s" % (cnat(case["n"]), cnat(case.get("k", 0)), cnat(case.get("nb", 0)), cnat(case.get("skip", 0)),
                                    clist([op_term3(o) for o in case["ops"]]))
 
 
@@ -153,7 +156,7 @@ def oracle3(case):
         if k == "view":
             b = op[1]
             obj, i, spec, _ = st.bk[b]
-            typ, rebuilt, current = ans
+            typ, rebuilt, current = ans[0]
             if typ != ("bipartite" if spec[0] else "species"):
                 fails.append(dict(clause="view-type", detail="op %d: graph_type %r for include_rule=%r" % (t, typ, spec[0])))
             if not current:
